@@ -195,10 +195,25 @@ def loop_attach(img):
     dev = p.stdout.decode().strip()
     if not dev.startswith("/dev/") or not stat.S_ISBLK(os.stat(dev).st_mode):
         raise OSError("losetup gave no block device: %r" % dev)
+    _loop_rdev[dev] = os.stat(dev).st_rdev
     return dev
 
 
+_loop_rdev = {}
+
+
+def loop_restore_node(dev):
+    """A command under test that unlinks its output removes the device NODE: put it back (the
+    before/after comparison has already recorded the removal) so that the device can be detached."""
+    if not os.path.exists(dev) and dev in _loop_rdev:
+        try:
+            os.mknod(dev, 0o660 | stat.S_IFBLK, _loop_rdev[dev])
+        except OSError:
+            pass
+
+
 def loop_detach(dev):
+    loop_restore_node(dev)
     for _ in range(20):
         with _loop_lock:
             p = subprocess.run(["losetup", "-d", dev], stdin=subprocess.DEVNULL, stdout=subprocess.PIPE,
